@@ -29,11 +29,13 @@ Rejected(g, others) == HasDup(others \o Names(Expand(g)))
 (***************************************************************************)
 (* the abstract groups enumerated for conformance                          *)
 (***************************************************************************)
-InstNames == {"e1", "e2", "g", "d1"}
+InstNames == {"e1", "e2", "g", "d1"}     \* ("e3" appears in the three-instance groups)
 ArgChoices == {<<>>, <<"1", "a">>}
 OptChoices == {<<>>, << <<"k", "2">> >>}
 Insts == [name : InstNames, args : ArgChoices, opts : OptChoices, par : BOOLEAN]
+Plain(n, p) == [name |-> n, args |-> <<>>, opts |-> <<>>, par |-> p]
 InstSeqs == {<<>>} \cup {<<a>> : a \in Insts} \cup {<<a, b>> : a \in Insts, b \in {x \in Insts : x.args = <<>> \/ x.opts = <<>>}}
+            \cup {<<Plain("e1", p), Plain("e2", q), Plain(n3, p)>> : p, q \in BOOLEAN, n3 \in {"e3", "e1"}}
 DepChoices == {<<>>, <<":d1">>, <<":d1", "//:d2">>}
 Groups == [name : {"g"}, run : {"true"}, deps : DepChoices, chain : BOOLEAN, insts : InstSeqs]
 
